@@ -93,13 +93,13 @@ def build_harness(variant="rel"):
                                          for d in [s] + deps[len(srcs):] if not d.endswith(".a")):
                 continue
             cmd = ["g++", "-std=c++17"] + v["flags"].split() + opt.split() + omp.split() + \
-                  ["-I" + os.path.join(REPO, "src"), "-I" + hdir, "-c", s, "-o", o]
+                  ["-fno-access-control", "-I" + os.path.join(REPO, "src"), "-I" + hdir, "-c", s, "-o", o]
             procs.append((s, subprocess.Popen(cmd, stdout=subprocess.PIPE, stderr=subprocess.STDOUT, text=True)))
         for s, p in procs:
             out, _ = p.communicate()
             if p.returncode != 0:
                 raise BuildError("harness compile failed (%s):\n%s" % (s, out[-6000:]))
-        cmd = ["g++"] + v["flags"].split() + omp.split() + objs + [os.path.join(bdir, "libcolvars.a"), "-o", exe]
+        cmd = ["g++"] + v["flags"].split() + omp.split() + objs + [os.path.join(bdir, "libcolvars.a"), "-ldl", "-o", exe]
         rc, out = run(cmd)
         if rc != 0:
             raise BuildError("harness link failed:\n" + out[-6000:])
